@@ -227,14 +227,15 @@ class ThreadsCold(Sub):
 # nested (sequential) evaluation
 
 OUTER = ['FN(1)+10', '10+FN(1)*3', 'SUM(FN(1),5)&"z"', 'va+A1', 'IF(FN(1)>1,A1,va)', 'SUM(A1:B2)+FN(2)', 'FN(FN(3))-B7',
-         'FN(1)+FN(2)+10', 'A1+B2+va+1', 'SUM(FN(1),FN(2),4)&"t"']
-INNER = ['1+1', '"a"&"b"', '1/0', 'nosuch', '1+', 'SUM(1,2,3)*2', 'FN(5)+va', 'A1', '#N/A', '{1,2}']
-TARGETS = ('other-prebuilt', 'other-fresh', 'same')
+         'FN(1)+FN(2)+10', 'A1+B2+va+1', 'SUM(FN(1),FN(2),4)&"t"', 'FN(1)+va*2', 'A1&va&FN(2)&va&B2']
+INNER = ['1+1', '"a"&"b"', '1/0', 'nosuch', '1+', 'SUM(1,2,3)*2', 'FN(5)+va', 'A1', '#N/A', '{1,2}', 'va+nosuch', 'va*A1+(',
+         'va&A1&#REF!']
+TARGETS = ('other-prebuilt', 'other-fresh', 'same', 'same-rebound')
 
 
 class Nested(Sub):
     name = 'c03.nested'
-    rule = ('outer formula x inner formula x target parser (pre-built other / built inside the callback / the same parser) x '
+    rule = ('outer formula x inner formula x target parser (pre-built other / built inside the callback / the same parser / the same parser with a variable rebound around the nested evaluation) x '
             'every callback invocation of the outer evaluation as the interposition point, depth 1 and 2: outer and inner '
             'outcomes equal their solo outcomes; non-trivial = interposition actually happened')
     min_cases = 300
@@ -244,14 +245,14 @@ class Nested(Sub):
     def cases(self, tier, unit):
         for o in range(len(OUTER)):
             for i in range(len(INNER)):
-                for t in range(3):
+                for t in range(4):
                     for site in range(10):
                         yield [o, i, t, site, None]
         # several sibling nested evaluations inside ONE outer evaluation: at every callback invocation ('all'),
         # and at every pair of invocations
         for o in range(len(OUTER)):
-            for i in (0, 2, 5, 6):
-                for t in range(3):
+            for i in (0, 2, 5, 6, 10, 11):
+                for t in range(4):
                     yield [o, i, t, 'all', None]
                     for s1 in range(6):
                         for s2 in range(s1 + 1, 7):
@@ -285,8 +286,11 @@ class Nested(Sub):
         outer_text, inner_text = OUTER[o], INNER[i]
         nohook = lambda kind: None
         want_outer = env.out(self.build(env, nohook).parse(outer_text))
-        TAG = {'same': 0, 'other-prebuilt': 1, 'other-fresh': 3}
-        want_inner = env.out(self.build(env, nohook, TAG[TARGETS[t]]).parse(inner_text))
+        TAG = {'same': 0, 'same-rebound': 0, 'other-prebuilt': 1, 'other-fresh': 3}
+        ref = self.build(env, nohook, TAG[TARGETS[t]])
+        if TARGETS[t] == 'same-rebound':
+            ref.set_variable('va', 999)
+        want_inner = env.out(ref.parse(inner_text))
         st = {'n': 0, 'level': 0, 'inner': None, 'fired': False, 'fired2': False, 'third': None, 'q': None,
               'count': 0, 'bad_inner': None}
         sites = None if site == 'all' else (site if isinstance(site, list) else [site])
@@ -309,10 +313,16 @@ class Nested(Sub):
                     q = prebuilt if target == 'other-prebuilt' else (mk(3) if target == 'other-fresh' else outer)
                     st['q'] = q
                     st['level'] = 1
+                    if target == 'same-rebound':
+                        # the callback binds a variable for the nested evaluation and puts the old value back afterwards
+                        # (a "current record" / loop variable): the rest of the outer formula must see the old value
+                        outer.set_variable('va', 999)
                     try:
                         got = env.out(q.parse(inner_text))
                     finally:
                         st['level'] = 0
+                        if target == 'same-rebound':
+                            outer.set_variable('va', 7)
                     if st['inner'] is None or got != want_inner:
                         st['inner'] = got
                 return
